@@ -906,6 +906,10 @@ func (h *vfE2H) exec(line string) {
 		h.doSlowPause(ai(1), ai(2), ai(3))
 	case "attwrap": // attwrap n   (F11, thorough tier)
 		h.doAttWrap(ai(1))
+	case "scanloop": // private NSQD, real queueScanLoop
+		h.doScanLoop()
+	case "pausedrestart": // private NSQD, restart with a topic persisted as paused
+		h.doPausedRestart()
 	}
 }
 
@@ -1059,6 +1063,11 @@ func (h *vfE2H) park(chs []*vfE2Chan, all bool) {
 }
 
 func (h *vfE2H) size() int {
+	// bodies at and just below --max-msg-size: the disk record is 26 bytes longer than the body, and
+	// every queue that may hold the message (topic and channel backends) must take it
+	if m := int(h.cfg.maxmsg); m > 0 && h.r.Intn(4) == 0 {
+		return m - []int{0, 1, 25, 26, 27}[h.r.Intn(5)]
+	}
 	switch h.r.Intn(6) {
 	case 0:
 		return 10
@@ -1397,6 +1406,9 @@ func (h *vfE2H) genCfg() vfE2Cfg {
 	if r.Intn(4) == 0 {
 		cfg.maxreq = 2000
 	}
+	if r.Intn(2) == 0 {
+		cfg.maxmsg = 600 // every generated size fits; boundary sizes are generated on purpose
+	}
 	return cfg
 }
 
@@ -1508,6 +1520,8 @@ func TestVerifE2Replay(t *testing.T) {
 					cfg.maxmtMs = v
 				case "maxreq":
 					cfg.maxreq = v
+				case "maxmsg":
+					cfg.maxmsg = v
 				}
 			}
 			h.start(cfg)
